@@ -67,6 +67,25 @@ Theorem C13_after_genuine_inert : forall tagf ops1 s p ops2,
 Proof. exact after_genuine_inert. Qed.
 Print Assumptions C13_after_genuine_inert.
 
+(** The full clause, including replayed and corrupted packets that carry the GENUINE connection IDs ([stale]: another
+    version; an Initial after the Initial keys were dropped, protected with other keys than the connection's, or with a
+    packet number that was already processed): inserted anywhere after the first authenticated packet, none of them
+    changes the final state or any non-drop outcome. *)
+Theorem C13_after_genuine_inert_strong : forall tagf ops1 s p ops2,
+  rcvFirst s = true -> forged (client s) (hsDCID s) p \/ stale s p ->
+  fst (run tagf s (ops1 ++ OpPkt p :: ops2)) = fst (run tagf s (ops1 ++ ops2)) /\
+  filter nondrop (snd (run tagf s (ops1 ++ OpPkt p :: ops2))) = filter nondrop (snd (run tagf s (ops1 ++ ops2))).
+Proof. exact after_genuine_inert_strong. Qed.
+Print Assumptions C13_after_genuine_inert_strong.
+
+(** non-vacuity: after the genuine Initial (pn 0, keys of [1;2;3]) its replay and a corrupted copy are stale *)
+Example C13_stale_example :
+  let s := fst (run (fun od _ _ => od) (init_client 1 [1] false [1;2;3] []) [OpPkt (PLong TInitial 1 [4;4] [1;2;3] 0 PlPing)]) in
+  rcvFirst s = true /\ stale s (PLong TInitial 1 [4;4] [1;2;3] 0 PlClose) /\ stale s (PLong TInitial 1 [4;4] [9;9] 7 PlClose) /\
+  stale s (PLong THandshake 2 [4;4] [1;2;3] 1 PlPing).
+Proof. vm_compute. repeat split; auto. right. split; auto. right. left. discriminate. left. discriminate. Qed.
+Print Assumptions C13_stale_example.
+
 (** ... and each such packet is itself dropped without touching the state; every later step keeps
     the decision state (version, DCIDs, retry SCID, token, Initial-key CID). *)
 Theorem C13_after_genuine_step : forall tagf s,
@@ -113,11 +132,14 @@ Print Assumptions C13_forged_retry_rejected.
     changes neither state nor outcomes. (Repaired in /repo: handlePackets used to go on with the queue after
     handleVersionNegotiationPacket had destroyed the connection, finding
     simhandshake/dial-ok-closed/version-negotiation.) *)
-Theorem C13_closed_stops : forall tagf ops1 s s1 outs ops2,
+(** (By construction of [run]: the content is in the CaseBatch / hstrace correspondence, which shows that the real
+    handlePackets loop and real connections stop where the model stops. The loop over coalesced packets inside one
+    datagram (handleOneDatagram keeps going after a CONNECTION_CLOSE in an earlier coalesced packet) is not modelled.) *)
+Theorem C13_closed_stops_by_construction : forall tagf ops1 s s1 outs ops2,
   run tagf s ops1 = (s1, outs) -> terminal (last outs ONone) = true ->
   run tagf s (ops1 ++ ops2) = (s1, outs).
 Proof. exact closed_stops. Qed.
-Print Assumptions C13_closed_stops.
+Print Assumptions C13_closed_stops_by_construction.
 
 (** Handshake deadline: while the handshake is incomplete the timer deadline is at most
     creation + 2 * HandshakeIdleTimeout, and a wake-up at or after the deadline closes the connection
@@ -216,14 +238,62 @@ Theorem C13_server_retry_stateless : forall c s now p s1 o q,
 Proof. exact retry_core. Qed.
 Print Assumptions C13_server_retry_stateless.
 
-(** Over any input: at most one connection per client-chosen DCID, every created connection stays routed under it,
-    and a connection created for an address that must be verified carries a token valid for that address. *)
-Theorem C13_server_connections : forall c ops s' outs, srun c s0 ops = (s', outs) ->
-  NoDup (map (fun x => match x with (_, d, _, _) => d end) (created s')) /\
-  (forall n d a v, In (n, d, a, v) (created s') -> hget d (handlers s') <> None) /\
-  (forall n d a v, In (n, d, a, v) (created s') -> zmem a (verifyAddrs c) = true -> v = true).
-Proof. exact sa_conns. Qed.
-Print Assumptions C13_server_connections.
+(** Connections and routes, with connections that close ([SClose]: every ID the connection registered is removed, by key,
+    as connIDGenerator.RemoveAll does) and client DCIDs that are retired ([SRetire], packetHandlerMap.Remove).
+    If the connection ID generator never hands out an ID that is registered at that moment ([sfresh]; it may echo the
+    client's own DCID), then in every reachable state every connection ID a LIVE connection has registered routes to that
+    connection and no ID is registered by two live connections: at most one live connection per client-chosen DCID, and the
+    DCID routes to it until it is retired or the connection closes. (Round 5: replaces C13_server_connections, which was only
+    true because the model could not remove routes.) *)
+Theorem C13_server_routes_while_live : forall c ops s' outs, srun c s0 ops = (s', outs) -> sfresh c s0 ops = true ->
+  (forall n k, In (n, k) (owns s') -> hget k (handlers s') = Some n) /\
+  (forall n m k, In (n, k) (owns s') -> In (m, k) (owns s') -> n = m).
+Proof. exact sa_routes. Qed.
+Print Assumptions C13_server_routes_while_live.
+
+(** A connection is only ever created for a DCID that is not routed — in particular not while a live connection has it
+    registered; after a close / retirement the same DCID may get a new connection (as in the code). *)
+Theorem C13_server_no_second_connection_while_routed : forall c s now p s1 n0 od0 rs0 v0 rtt0 e0,
+  recv_core c s now p = (s1, SNewConn n0 od0 rs0 v0 rtt0 e0) ->
+  exists size dcid scid tok addr intact newcid, p = SPinitial size dcid scid tok addr intact newcid /\
+    hget dcid (handlers s) = None /\ (route_inv s -> forall m, ~ In (m, dcid) (owns s)).
+Proof. exact no_second_while_live. Qed.
+Print Assumptions C13_server_no_second_connection_while_routed.
+
+(** Over any input (closes and retirements included): a connection created for an address that must be verified carries a
+    token valid for that address. *)
+Theorem C13_server_verified_when_required : forall c ops s' outs, srun c s0 ops = (s', outs) ->
+  forall n d a v, In (n, d, a, v) (created s') -> zmem a (verifyAddrs c) = true -> v = true.
+Proof. exact sa_verified. Qed.
+Print Assumptions C13_server_verified_when_required.
+
+(** REFUTED without the generator's freshness: AddWithConnID checks only the client's DCID and overwrites
+    handlers[newConnID] blindly. If the ID generated for a second connection equals the DCID a first, live connection was
+    created for, that DCID is re-routed to the second connection; closing the second then removes the first's route.
+    (Replayed on the real baseServer with a scripted ConnectionIDGenerator: serveraccept, DIST key cid-collision-reroute.) *)
+Example C13_server_routes_refuted_without_fresh_ids :
+  let c := mkCfg false false [] [] in
+  let d1 := [1;1;1;1;1;1;1;1] in let d2 := [2;2;2;2;2;2;2;2] in
+  let ops := [ SRecv 1 (SPinitial 1200 d1 [7] TkNone 0 true [5;5]);
+               SRecv 2 (SPinitial 1200 d2 [8] TkNone 1 true d1) ] in
+  sfresh c s0 ops = false /\
+  In (0, d1) (owns (fst (srun c s0 ops))) /\ hget d1 (handlers (fst (srun c s0 ops))) = Some 1 /\
+  hget d1 (handlers (fst (srun c s0 (ops ++ [SClose 1])))) = None /\ In (0, d1) (owns (fst (srun c s0 (ops ++ [SClose 1])))).
+Proof. vm_compute. repeat split; auto. Qed.
+Print Assumptions C13_server_routes_refuted_without_fresh_ids.
+
+(** non-vacuity of the repaired statement: a connection, a duplicate routed to it, its close, and a second connection for
+    the same DCID afterwards *)
+Example C13_server_routes_example :
+  let c := mkCfg false false [] [] in
+  let d1 := [1;1;1;1;1;1;1;1] in
+  let ops := [ SRecv 1 (SPinitial 1200 d1 [7] TkNone 0 true [5;5]); SRecv 2 (SPinitial 1200 d1 [7] TkNone 0 true [6;6]);
+               SClose 0; SRecv 3 (SPinitial 1200 d1 [7] TkNone 0 true [9;9]); SRetire 1 d1 ] in
+  sfresh c s0 ops = true /\
+  snd (srun c s0 ops) = [SNewConn 0 d1 None false 0 0; SRouted 0; SRemoved 2; SNewConn 1 d1 None false 0 0; SRemoved 1] /\
+  owns (fst (srun c s0 ops)) = [(1, [9;9])].
+Proof. vm_compute. repeat split. Qed.
+Print Assumptions C13_server_routes_example.
 
 (** A further Initial for a DCID that has a connection goes to that connection. *)
 Theorem C13_server_duplicate_routed : forall c s now size dcid scid tok addr intact newcid n,
